@@ -49,6 +49,18 @@ ALLOW = {
     ("libwild::elf_writer::write_gnu_property_notes", "zerocopy::"):
         "output buffer of .note.gnu.property, split at exactly size_of::<NoteProperty>() in an 8-byte aligned section",
 }
+# cycles that carry no depth test but are bounded for a stated reason; kind `visited` is re-verified from the code
+CYCLE_ALLOW = {
+    "libwild::linker_script::foreach_input": ("tree-walk",
+        "structural recursion over the Command tree built by parse_command/parse_paren_group: its depth is the parser's recursion depth, "
+        "so the parser cycle is the one that needs (and is reported for lacking) the budget"),
+    "libwild::save_dir::SaveDirState::write_args": ("after-parse",
+        "runs from SaveDirState::finish, i.e. only after Args::parse expanded the same response files, whose nesting is limited "
+        "(MAX_RESPONSE_FILE_DEPTH, fix 68a4390)"),
+    "libwild::save_dir::SaveDirState::copy_file": ("visited",
+        "visited-set recursion: returns at once when the destination already exists; parents are strictly shorter paths; symlink chains are "
+        "cut by the OS (exists() follows links and fails with ELOOP); thin-archive members are visited only after the archive itself was copied"),
+}
 NESTING_MODULES = ("libwild::linker_script::", "libwild::version_script::", "libwild::export_list::", "libwild::expression_eval::",
                    "libwild::args::", "libwild::save_dir::", "libwild::glob_match::")
 
@@ -90,7 +102,8 @@ def run(ctx, rep):
                 continue
             n_sites += 1
             E = err_type(t["f"].get("fn_args"))
-            m = INPUT_ERR.search(E)
+            # the *head* of the error type decides: PoisonError<MutexGuard<Vec<Error>>> is a lock error, not an input error
+            m = INPUT_ERR.match(E.lstrip("&").strip())
             if not m:
                 continue
             cls = m.group(1)
@@ -184,6 +197,16 @@ def run(ctx, rep):
                 break
         rep_name = min(n for n in names if "{closure" not in n) if any("{closure" not in n for n in names) else names[0]
         b0 = F.body(next(k for k in c if stable(k) == rep_name)) if any(stable(k) == rep_name for k in c) else None
+        if guarded is None and rep_name in CYCLE_ALLOW:
+            kind, reason = CYCLE_ALLOW[rep_name]
+            ok, why = True, ""
+            if kind == "visited":
+                ok, why = _visited_guard(P, F, c)
+            elif kind == "tree-walk":
+                ok, why = _structural(P, F, c)
+            rep.ob("recursion-budget", rep_name, ok, (f"cycle of {len(c)} bounded without a counter ({kind}): {reason}; verified: {why}" if ok else
+                   f"cycle listed as `{kind}` but its structural condition no longer holds: {why}"), b0.file if b0 else None, b0.line if b0 else 0)
+            continue
         rep.ob("recursion-budget", rep_name, guarded is not None,
                (f"cycle of {len(c)} ({', '.join(n.split('::')[-1] for n in names[:5])}…): bounded by `{guarded[1]}` in {guarded[0].split('::')[-1]}" if guarded else
                 f"cycle of {len(c)} function(s) ({', '.join(n.split('::')[-1] for n in names[:6])}{'…' if len(names) > 6 else ''}) recurses on input nesting with no depth or budget test: a deeply nested input overflows the stack (abort, no diagnostic)"),
@@ -216,3 +239,56 @@ def _budget_guard(P, body, cset):
             if any(rb in r for rb in rec_blocks):
                 return tr
     return None
+
+
+FS_CREATE = ("std::fs::hard_link", "std::fs::copy", "std::fs::create_dir", "std::fs::write", "std::os::unix::fs::symlink")
+
+
+def _visited_guard(P, F, comp):
+    """(a) some body of the cycle returns early on the true edge of Path::exists without recursing; (b) every call from the cycle into a
+    body that re-enters it through *other files' contents* (here: handle_thin_archive) is dominated by a file-creation call, so that the
+    re-entry finds the destination present."""
+    cset = set(comp)
+    exists_guard = False
+    dominated = []
+    for k in comp:
+        b = F.body(k)
+        if b is None:
+            continue
+        flow, cfg = P.flow(b), P.cfg(b)
+        calls = list(flow.calls())
+        if any((callee_key(t["f"]) or "") == "std::path::Path::exists" for _bi, t in calls):
+            exists_guard = True
+        creators = [bi for bi, t in calls if (callee_key(t["f"]) or "").startswith(FS_CREATE)]
+        for bi, t in calls:
+            ks = P.callees_of_call(t)
+            tgt = [x for x in ks & cset if stable(x).endswith("handle_thin_archive")]
+            if tgt and stable(k).endswith("copy_file"):
+                dominated.append(any(cfg.dominates(cb, bi) for cb in creators))
+    if not exists_guard:
+        return False, "no Path::exists test in the cycle"
+    if not dominated:
+        return False, "no call from copy_file to handle_thin_archive found"
+    if not all(dominated):
+        return False, "handle_thin_archive is called before the archive itself has been created at the destination: an archive that lists itself recurses forever"
+    return True, f"Path::exists early return present; {len(dominated)} call(s) to handle_thin_archive each dominated by a file-creation call"
+
+
+def _structural(P, F, comp):
+    """every recursive call passes, as its first argument, the payload of an enum variant (a strict sub-tree of the node being visited)."""
+    cset = set(comp)
+    n = 0
+    for k in comp:
+        b = F.body(k)
+        if b is None:
+            continue
+        flow = P.flow(b)
+        for bi, t in flow.calls():
+            if not (P.callees_of_call(t) & cset):
+                continue
+            n += 1
+            tr = render(expr_tree(P, b, t["args"][0], depth=8, expand_params=0))
+            # e.g. `next(?)@Some.0@Group.0`: the payload of an enum variant of the element being visited
+            if not re.search(r"@\w+\.\d+$", tr):
+                return False, f"recursive call at line {t['l']} passes `{tr[:80]}`, which is not the payload of a variant of the visited node"
+    return (n > 0), f"{n} recursive call(s), each on the payload of an enum variant of the visited node (strictly smaller tree)"
